@@ -32,6 +32,10 @@ def evaluate(p):
     if k == "parse": return Unit.parse(p[1])
     if k == "qparse": return Quantity(5, p[1]).unit
     if k == "expr": return mk_unit(p[1])
+    if k == "qjson":
+        import json as _json
+        from measured.json import MeasuredJSONDecoder
+        return _json.loads(_json.dumps({"__measured__": "Quantity", "magnitude": 3, "unit": p[1]}), cls=MeasuredJSONDecoder).unit
     raise ValueError(k)
 
 def disturb(probes):
@@ -57,8 +61,26 @@ def disturb(probes):
         except Exception:
             pass
 
+def serialise_everything():
+    """quantities in every registered prefix x every named unit go through every way of writing them out (JSON, SQL composite,
+    pickle, copy, str/repr): writing a quantity out may not change what a text or an expression means afterwards"""
+    import json as _json, pickle, copy
+    from measured.json import MeasuredJSONEncoder
+    units = [u for u in dict.fromkeys(Unit._by_name.values()) if isinstance(u, Unit)]
+    for pre in [None] + list(dict.fromkeys(Prefix._by_name.values())):
+        for u in units:
+            try:
+                q = 5 * (pre * u if pre is not None else u)
+            except Exception: continue
+            for f in (lambda: _json.dumps(q, cls=MeasuredJSONEncoder), lambda: q.__json__(), lambda: q.__composite_values__(), lambda: pickle.dumps(q),
+                      lambda: copy.deepcopy(q), lambda: str(q), lambda: repr(q)):
+                try: f()
+                except Exception: pass
+
 def run(data):
-    if data.get("disturb"): disturb(data["probes"])
+    if data.get("disturb"):
+        disturb(data["probes"])
+        serialise_everything()
     # definitions made in both kinds of process, AFTER the disturbance: a text that parsed through a prefix split (dam = deca-metre) is
     # declared as the exact symbol of a new unit; from then on it means that unit, whether or not it was parsed before
     for text, dim in data.get("late", []):
